@@ -1,12 +1,12 @@
 package main
 
 import (
-	"strings"
 	"bytes"
 	"fmt"
 	"io"
 	"math/big"
 	"strconv"
+	"strings"
 
 	"github.com/tjfoc/gmsm/sm2"
 )
@@ -26,6 +26,7 @@ func init() {
 	evals["eckeygen"] = evalEckeygen
 	evals["sm2sign"] = evalSm2sign
 	evals["sm2fresh"] = evalSm2fresh
+	evals["sm2obj"] = evalSm2obj
 	evals["ecsmulseq"] = evalEcsmulseq
 	evals["sm2verifye"] = evalSm2verifye
 	evals["sm2signder"] = evalSm2signder
@@ -166,7 +167,51 @@ func evalEckeygen(args []string) string {
 	return fmt.Sprintf("%s %s %s %d", h32(k.D), h32(k.X), h32(k.Y), len(rnd)-len(fr.b))
 }
 
+// sm2obj: while set, privFromD / pubFromXY hand out this ONE key object (and its embedded public key) for the
+// matching key, so that a sequence of operations runs on a reused object
+var sm2ObjOverride *sm2.PrivateKey
+
+// sm2obj <d> <op> ... : ops s:<uid>:<msg>:<rand> (sign) | v:<uid>:<msg>:<r>:<s> (verify) | e:<mode>:<msg>:<rand>
+// (encrypt) | d:<mode>:<ct> (decrypt), all on one *PrivateKey object; the results "/"-separated, each exactly what the
+// single op prints. Afterwards the object's D, X, Y must be what they were.
+func evalSm2obj(args []string) string {
+	if len(args) < 2 {
+		return "bad-op"
+	}
+	d, ok := bi(args[0])
+	if !ok {
+		return "bad-op"
+	}
+	obj := privFromD(d)
+	d0, x0, y0 := new(big.Int).Set(obj.D), new(big.Int).Set(obj.X), new(big.Int).Set(obj.Y)
+	sm2ObjOverride = obj
+	defer func() { sm2ObjOverride = nil }()
+	var out []string
+	for _, a := range args[1:] {
+		f := strings.Split(a, ":")
+		switch {
+		case f[0] == "s" && len(f) == 4:
+			out = append(out, evalSm2sign([]string{args[0], f[1], f[2], f[3]}))
+		case f[0] == "v" && len(f) == 5:
+			out = append(out, evalSm2verify([]string{h32(x0), h32(y0), f[1], f[2], f[3], f[4]}))
+		case f[0] == "e" && len(f) == 4:
+			out = append(out, evalSm2enc([]string{h32(x0), h32(y0), f[1], f[2], f[3]}))
+		case f[0] == "d" && len(f) == 3:
+			out = append(out, evalSm2dec([]string{args[0], f[1], f[2]}))
+		default:
+			return "bad-op"
+		}
+		if obj.D.Cmp(d0) != 0 || obj.X.Cmp(x0) != 0 || obj.Y.Cmp(y0) != 0 {
+			return "ORACLE-FAIL:key-object-modified-by:" + f[0]
+		}
+	}
+	return strings.Join(out, "/")
+}
+
 func privFromD(d *big.Int) *sm2.PrivateKey {
+	if o := sm2ObjOverride; o != nil && o.D.Cmp(d) == 0 {
+		return o
+	}
 	c := sm2.P256Sm2()
 	k := new(sm2.PrivateKey)
 	k.Curve = c
@@ -176,6 +221,9 @@ func privFromD(d *big.Int) *sm2.PrivateKey {
 }
 
 func pubFromXY(x, y *big.Int) *sm2.PublicKey {
+	if o := sm2ObjOverride; o != nil && o.X.Cmp(x) == 0 && o.Y.Cmp(y) == 0 {
+		return &o.PublicKey
+	}
 	return &sm2.PublicKey{Curve: sm2.P256Sm2(), X: x, Y: y}
 }
 
